@@ -41,7 +41,9 @@ pub fn spaces_for(tier: Tier, mode: Mode, also: Also, label: &'static str) -> (V
 }
 
 pub fn build(tier: Tier) -> CheckDef {
-    let (spaces, bounds) = spaces_for(tier, Mode::Total, Also::Nothing, "C01 no panic");
+    let (mut spaces, bounds) = spaces_for(tier, Mode::Total, Also::Nothing, "C01 no panic");
+    // iterator histories incl. nth(huge) from every cursor position (any caller-supplied count)
+    spaces.push(Box::new(super::c09::Sequences { depth: 3 }));
     CheckDef {
         prop: "C01",
         level: "model_checking",
